@@ -648,7 +648,26 @@ var (
 func vsPick(r *vu.Rng, pool []string) string { return pool[r.Intn(len(pool))] }
 func vsPtr(s string) *string                { return &s }
 
-func vsGenMatch(r *vu.Rng, grpc bool) vsMatch {
+// vsSub draws a small sub-pool so that objects of one state compete for the same names.
+func vsSub(r *vu.Rng, pool []string, n int) []string {
+	idx := make([]int, len(pool))
+	for i := range idx {
+		idx[i] = i
+	}
+	r.Shuffle(len(idx), func(i, j int) { idx[i], idx[j] = idx[j], idx[i] })
+	if n > len(pool) {
+		n = len(pool)
+	}
+	out := make([]string, n)
+	for i := 0; i < n; i++ {
+		out[i] = pool[idx[i]]
+	}
+	return out
+}
+
+type vsPools struct{ hosts, paths []string }
+
+func vsGenMatch(r *vu.Rng, grpc bool, pools vsPools) vsMatch {
 	var m vsMatch
 	if grpc {
 		if r.Chance(2, 3) {
@@ -658,7 +677,7 @@ func vsGenMatch(r *vu.Rng, grpc bool) vsMatch {
 			m.Path = "/"
 		}
 	} else {
-		m.Path = vsPick(r, vsPathPool)
+		m.Path = vsPick(r, pools.paths)
 		m.Exact = r.Chance(1, 3)
 		if r.Chance(1, 4) {
 			m.Method = vsPtr(vsPick(r, vsMethods))
@@ -774,6 +793,7 @@ func vsGenFilter(r *vu.Rng, grpc bool, path string) vsFilter {
 // vsGen draws a cluster state; size (0..) scales the number of objects.
 func vsGen(r *vu.Rng, size int) *vsCluster {
 	c := &vsCluster{}
+	pools := vsPools{hosts: vsSub(r, vsHostPool, 2+r.Intn(3)), paths: vsSub(r, vsPathPool, 2+r.Intn(3))}
 	for _, n := range vsNSPool {
 		ns := vsNamespace{Name: n}
 		if n != "default" && r.Bool() {
@@ -866,7 +886,7 @@ func vsGen(r *vu.Rng, size int) *vsCluster {
 				l.Port = 9113 // protected port
 			}
 			if r.Chance(2, 3) {
-				l.Host = vsPtr(vsPick(r, vsHostPool))
+				l.Host = vsPtr(vsPick(r, pools.hosts))
 			}
 			if l.From == "Selector" {
 				l.Selector = [][2]string{{"team", "x"}}
@@ -895,6 +915,9 @@ func vsGen(r *vu.Rng, size int) *vsCluster {
 	}
 	for i := 0; i < nr; i++ {
 		rt := vsRoute{NS: vsPick(r, vsNSPool), Name: "r" + strconv.Itoa(i), TS: int64(r.Intn(4)), GRPC: r.Chance(1, 5)}
+		if r.Bool() {
+			rt.NS = c.Gateways[0].NS
+		}
 		np := 1
 		if r.Chance(1, 5) {
 			np = 2
@@ -936,7 +959,7 @@ func vsGen(r *vu.Rng, size int) *vsCluster {
 		nh := r.Intn(3)
 		seenH := map[string]bool{}
 		for j := 0; j < nh; j++ {
-			h := vsPick(r, vsHostPool)
+			h := vsPick(r, pools.hosts)
 			if !seenH[h] {
 				seenH[h] = true
 				rt.Hosts = append(rt.Hosts, h)
@@ -953,7 +976,7 @@ func vsGen(r *vu.Rng, size int) *vsCluster {
 				nm = 1
 			}
 			for k := 0; k < nm; k++ {
-				ru.Matches = append(ru.Matches, vsGenMatch(r, rt.GRPC))
+				ru.Matches = append(ru.Matches, vsGenMatch(r, rt.GRPC, pools))
 			}
 			if r.Chance(1, 3) {
 				p := "/"
@@ -1013,10 +1036,76 @@ func vsGenRequests(r *vu.Rng, c *vsCluster, n int) []vsRequest {
 		"other.org", "y.org", "nomatch.io", "fooexample.com", "xexample.com"}
 	pathReq := []string{"/", "/a", "/a/", "/a/b", "/a/b/", "/a/b/c", "/a/b/c/d", "/ab", "/abc", "/a/x", "/b", "/b/z", "/coffee", "/coffee/latte",
 		"/coffeex", "/tea", "/A", "/zzz", "/pkg.Svc/Get", "/pkg.Svc/Put", "/pkg.Svc/Other", "/other.S/M"}
+	// every (route, match) of the state, to aim requests at
+	type aim struct {
+		hosts []string
+		m     vsMatch
+	}
+	var aims []aim
+	for _, rt := range c.Routes {
+		for _, ru := range rt.Rules {
+			ms := ru.Matches
+			if len(ms) == 0 {
+				ms = []vsMatch{{Path: "/"}}
+			}
+			for _, m := range ms {
+				aims = append(aims, aim{rt.Hosts, m})
+			}
+		}
+	}
+	concrete := func(h string) string {
+		if len(h) > 2 && h[:2] == "*." {
+			return []string{"x.", "a.foo.", "b."}[r.Intn(3)] + h[2:]
+		}
+		return h
+	}
 	var out []vsRequest
 	for i := 0; i < n; i++ {
 		p := plist[r.Intn(len(plist))]
 		q := vsRequest{Port: p, Host: vsPick(r, hostReq), Path: vsPick(r, pathReq), Method: vsPick(r, []string{"GET", "POST", "PUT"})}
+		directed := len(aims) > 0 && r.Chance(2, 3)
+		if directed {
+			// satisfy one match (and often a second one on top of it), then perturb
+			a := aims[r.Intn(len(aims))]
+			if len(a.hosts) > 0 && r.Chance(3, 4) {
+				q.Host = concrete(a.hosts[r.Intn(len(a.hosts))])
+			}
+			q.Path = a.m.Path
+			if !a.m.Exact && r.Chance(1, 3) {
+				if q.Path == "/" {
+					q.Path = "/zzz"
+				} else {
+					q.Path += []string{"/x", "/", "x"}[r.Intn(3)]
+				}
+			}
+			if a.m.Method != nil && r.Chance(4, 5) {
+				q.Method = *a.m.Method
+			}
+			q.Headers = append(q.Headers, a.m.Headers...)
+			q.Query = append(q.Query, a.m.Query...)
+			if r.Bool() {
+				b := aims[r.Intn(len(aims))]
+				q.Headers = append(q.Headers, b.m.Headers...)
+				q.Query = append(q.Query, b.m.Query...)
+				if b.m.Method != nil && a.m.Method == nil {
+					q.Method = *b.m.Method
+				}
+			}
+			if len(q.Headers) > 0 && r.Chance(1, 5) {
+				k := r.Intn(len(q.Headers))
+				q.Headers = append(append([][2]string{}, q.Headers[:k]...), q.Headers[k+1:]...)
+			}
+			if len(q.Headers) > 0 && r.Chance(1, 6) {
+				k := r.Intn(len(q.Headers))
+				hh := append([][2]string{}, q.Headers...)
+				hh[k][1] = hh[k][1] + "," + vsPick(r, vsVals)
+				q.Headers = hh
+			}
+			if len(q.Query) > 0 && r.Chance(1, 5) {
+				k := r.Intn(len(q.Query))
+				q.Query = append(append([][2]string{}, q.Query[:k]...), q.Query[k+1:]...)
+			}
+		}
 		// which protocol is valid on that port is decided by the controller; try the declared one mostly
 		tls := ports[p] == "HTTPS"
 		if r.Chance(1, 10) {
@@ -1031,7 +1120,7 @@ func vsGenRequests(r *vu.Rng, c *vsCluster, n int) []vsRequest {
 				}
 			}
 		}
-		for k := r.Intn(3); k > 0; k-- {
+		for k := r.Intn(3); k > 0 && !directed; k-- {
 			v := vsPick(r, vsVals)
 			if r.Chance(1, 4) {
 				v = vsPick(r, vsVals) + "," + vsPick(r, vsVals)
@@ -1039,7 +1128,7 @@ func vsGenRequests(r *vu.Rng, c *vsCluster, n int) []vsRequest {
 			q.Headers = append(q.Headers, [2]string{vsPick(r, []string{"X-A", "x-a", "X-B", "x-b", "Version", "X-C"}), v})
 		}
 		q.Headers = vsDedupPairs(q.Headers, true)
-		for k := r.Intn(3); k > 0; k-- {
+		for k := r.Intn(3); k > 0 && !directed; k-- {
 			q.Query = append(q.Query, [2]string{vsPick(r, []string{"k", "K", "j", "z"}), vsPick(r, vsVals)})
 		}
 		out = append(out, q)
